@@ -1,8 +1,16 @@
 """C05 — application failures are contained and never yield a falsely complete response.
 
-Exhaustive crash-point grid: every step index of a family of scripted applications x {raise, return} x
-{HTTP/1.1 keep-alive + a pipelined second request, HTTP/2 with a sibling stream, WebSocket handshake / session}
-x both workers; the client's verdict comes from independent h11 / h2 parsers."""
+Exhaustive crash-point grid: every step index of a family of scripted applications (including the point after the
+response completed) x the ways an application can end there -
+    raise      an exception of its own (a bare one, or an ExceptionGroup from a task group inside the application),
+    return     falls off the end early,
+    cancel     a cancellation reaches it at that await point while the connection stays up (asyncio: it awaits something
+               of its own that was cancelled / its own task is cancelled; trio: a cancel scope of its own is cancelled),
+    invalid    it sends a message the server refuses: the server raises into the application, which dies with that
+               exception (every refusal hypercorn's own code makes, in every state of the response),
+x {HTTP/1.1 keep-alive + a pipelined second request, HTTP/2 with a sibling stream, WebSocket handshake / session}
+x both workers; the client's verdict comes from independent h11 / h2 parsers.  Whether "a response had been started" is
+read off what the server *accepted* from the application (a refused message starts nothing)."""
 from __future__ import annotations
 
 from typing import Any, Dict, List, Optional
@@ -41,36 +49,133 @@ SIBLING = [["recv_body"], ["send", {"type": "http.response.start", "status": 200
            ["send", {"type": "http.response.body", "body": b"sibling"}]]
 
 
+# messages hypercorn's own code refuses (the exception is raised into the application), by the state they are sent in
+INVALID = {
+    "REQUEST": {
+        "start_str_headers": {"type": "http.response.start", "status": 200, "headers": [("x-a", "1")]},
+        "start_pseudo_header": {"type": "http.response.start", "status": 200, "headers": [(b":status", b"200")]},
+        "start_ctl_in_value": {"type": "http.response.start", "status": 200, "headers": [(b"x-a", b"a\r\nx-b: 1")]},
+        "start_bad_status": {"type": "http.response.start", "status": "abc", "headers": [(b"x-a", b"1")]},
+        "start_no_status": {"type": "http.response.start", "headers": [(b"x-a", b"1")]},
+        "start_empty_name": {"type": "http.response.start", "status": 200, "headers": [(b"", b"1")]},
+        "body_before_start": {"type": "http.response.body", "body": b"early"},
+        "unknown_type": {"type": "http.response.bogus"},
+    },
+    "RESPONSE": {
+        "body_str": {"type": "http.response.body", "body": "text", "more_body": True},
+        "second_start": {"type": "http.response.start", "status": 200, "headers": []},
+        "unknown_type": {"type": "http.response.bogus"},
+    },
+    "CLOSED": {
+        "body_after_end": {"type": "http.response.body", "body": b"late"},
+        "start_after_end": {"type": "http.response.start", "status": 200, "headers": []},
+    },
+}
+WS_INVALID = {
+    "HANDSHAKE": {
+        "send_before_accept": {"type": "websocket.send", "text": "early"},
+        "accept_str_headers": {"type": "websocket.accept", "headers": [("x-a", "1")]},
+        "unknown_type": {"type": "websocket.bogus"},
+    },
+    "CONNECTED": {
+        "accept_again": {"type": "websocket.accept"},
+        "send_text_not_str": {"type": "websocket.send", "text": 5},
+        "unknown_type": {"type": "websocket.bogus"},
+    },
+}
+KINDS = ("raise", "return", "cancel", "invalid")
+
+
+def steps_of(case: dict) -> List[list]:
+    return WS_FAMILY if case["family"] == "ws" else FAMILIES[case["family"]]
+
+
+def scripted_state(case: dict) -> str:
+    """state the response is in at the crash point if every scripted message before it is accepted"""
+    if case["family"] == "ws":
+        return "CONNECTED" if case["crash_at"] >= 2 else "HANDSHAKE"
+    st = "REQUEST"
+    for s_ in FAMILIES[case["family"]][: case["crash_at"]]:
+        if s_[0] == "send":
+            st = _advance(st, s_[1])
+    return st
+
+
+def _advance(st: str, m: dict) -> str:
+    if m["type"] == "http.response.start" and st == "REQUEST":
+        return "RESPONSE"
+    if m["type"] == "http.response.body" and st == "RESPONSE" and not m.get("more_body", False):
+        return "CLOSED"
+    return st
+
+
+def variants(case: dict) -> List[Optional[str]]:
+    """the ways `kind` can happen at this crash point on this worker (first = the canonical one)"""
+    if case["kind"] == "raise":
+        return [None, "group"]
+    if case["kind"] == "cancel":
+        return ["inner", "self"] if case["worker"] == "asyncio" else ["inner"]
+    if case["kind"] == "invalid":
+        table = WS_INVALID if case["family"] == "ws" else INVALID
+        return list(table[scripted_state(case)])
+    return [None]
+
+
 def grid() -> List[dict]:
+    """every crash point x kind x protocol x worker with the canonical variant of the kind, then every other variant of
+    every kind on a sweep that reaches each state of the response (REQUEST / RESPONSE / CLOSED, HANDSHAKE / CONNECTED)
+    on every protocol and worker"""
     cases = []
-    for fam, steps in FAMILIES.items():
+    for fam, steps in list(FAMILIES.items()) + [("ws", WS_FAMILY)]:
         for idx in range(len(steps) + 1):
-            for kind in ("raise", "return"):
-                for proto in ("1.1", "2"):
+            for kind in KINDS:
+                for proto in (("ws",) if fam == "ws" else ("1.1", "2")):
                     for worker in ("asyncio", "trio"):
-                        cases.append({"family": fam, "crash_at": idx, "kind": kind, "proto": proto, "worker": worker})
-    for idx in range(len(WS_FAMILY) + 1):
-        for kind in ("raise", "return"):
-            for worker in ("asyncio", "trio"):
-                cases.append({"family": "ws", "crash_at": idx, "kind": kind, "proto": "ws", "worker": worker})
+                        c = {"family": fam, "crash_at": idx, "kind": kind, "proto": proto, "worker": worker}
+                        v = variants(c)[0]
+                        if v is not None:
+                            c["variant"] = v
+                        cases.append(c)
+    for fam, idxs in (("read_then_respond", (1, 2, 4)), ("ws", (1, 3))):
+        for idx in idxs:
+            for kind in KINDS:
+                for proto in (("ws",) if fam == "ws" else ("1.1", "2")):
+                    for worker in ("asyncio", "trio"):
+                        c = {"family": fam, "crash_at": idx, "kind": kind, "proto": proto, "worker": worker}
+                        for v in variants(c)[1:]:
+                            cases.append({**c, "variant": v})
     return cases
 
 
 def script_for(case: dict) -> List[list]:
-    steps = WS_FAMILY if case["family"] == "ws" else FAMILIES[case["family"]]
-    return [list(s) for s in steps[: case["crash_at"]]] + ([[case["kind"]]] if case["crash_at"] < len(steps) else [])
+    steps = steps_of(case)
+    kind, v = case["kind"], case.get("variant")
+    if kind == "raise":
+        end = [["raise_group"]] if v == "group" else [["raise"]]
+    elif kind == "return":
+        end = [["return"]]
+    elif kind == "cancel":
+        end = [["cancel", v or "inner"]]
+    else:
+        table = WS_INVALID if case["family"] == "ws" else INVALID
+        end = [["send!", table[scripted_state(case)][v]], ["return"]]
+    return [list(s) for s in steps[: case["crash_at"]]] + end
 
 
-def asgi_state_at_exit(case: dict) -> str:
-    steps = FAMILIES[case["family"]][: case["crash_at"]]
-    st = "REQUEST"
-    for s in steps:
-        if s[0] == "send":
-            m = s[1]
-            if m["type"] == "http.response.start":
-                st = "RESPONSE"
-            elif m["type"] == "http.response.body" and not m.get("more_body", False):
-                st = "CLOSED"
+def accepted_state(case: dict, app_sends: List[list]) -> Optional[str]:
+    """The state of the response when the application ended, read off what the server accepted: the application's k-th
+    send call carried the script's k-th message; it counts iff the call returned normally.  None = a message of the
+    (valid) script was refused, which is judged separately."""
+    msgs = [s_[1] for s_ in script_for(case) if s_[0] in ("send", "send!")]
+    valid = sum(1 for s_ in steps_of(case)[: case["crash_at"]] if s_[0] == "send")
+    ws = case["family"] == "ws"
+    st = "HANDSHAKE" if ws else "REQUEST"
+    for k, m in enumerate(msgs[: len(app_sends)]):
+        ok = app_sends[k][2] == "ok"
+        if not ok and k < valid:
+            return None
+        if ok:
+            st = ("CONNECTED" if m["type"] == "websocket.accept" and st == "HANDSHAKE" else st) if ws else _advance(st, m)
     return st
 
 
@@ -114,6 +219,8 @@ def run_case(case: dict) -> dict:
             await io.sleep(0.5)
             wc = Connection(ConnectionType.CLIENT)
             await io.send(wc.send(TextMessage(data="hi")))
+            await io.sleep(0.5)
+            await io.send(wc.send(TextMessage(data="again")))     # lets the last receive of the script return
             await io.sleep(2.0)
         res = R.RUNNERS[case["worker"]]({"keep_alive_timeout": 3}, None, client, [script], tail=10)
         head, _, rest = res["out"].partition(b"\r\n\r\n")
@@ -127,8 +234,11 @@ def run_case(case: dict) -> dict:
             except Exception as e:
                 frames.append(["error", repr(e)])
         view = {"status_line": head.split(b"\r\n")[0].decode(), "frames": frames, "closed": res["closed_at"] is not None}
+    crash_app = next((a for a in res["apps"] if a["scope"]["path"] in ("/crash", "/ws")), None)
     return {"view": view, "exceptions": len(res["exceptions"]), "error": res["error"], "loop_errors": res["loop_errors"],
-            "apps": [[a["exit"], a["send"]] for a in res["apps"]], "handler_done": bool(res["handler_done"])}
+            "apps": [[a["exit"], a["send"]] for a in res["apps"]], "handler_done": bool(res["handler_done"]),
+            "crash_app": None if crash_app is None else {"exit": crash_app["exit"], "send": crash_app["send"]},
+            "stuck": bool(res.get("stuck_session"))}
 
 
 def check(ctx: Ctx, cases: List[dict]) -> None:
@@ -136,30 +246,52 @@ def check(ctx: Ctx, cases: List[dict]) -> None:
         o = run_case(case)
         ctx.evaluations += 1
         ctx.count("proto", case["proto"])
-        ctx.count("kind", case["kind"])
-        ctx.distinct([case["family"], case["crash_at"], case["kind"], case["proto"], case["worker"]])
+        ctx.count("kind", case["kind"] + ("/" + case["variant"] if case.get("variant") and case["kind"] != "invalid" else ""))
+        if case["kind"] == "invalid":
+            ctx.count("invalid_message", scripted_state(case) + ":" + case["variant"])
+        ctx.distinct([case["family"], case["crash_at"], case["kind"], case.get("variant"), case["proto"], case["worker"]])
         ctx.sample(case, cap=3)
         sig = {"proto": case["proto"], "kind": case["kind"]}
         v = o["view"]
+        if o["stuck"]:
+            ctx.violation("session_hangs", case, {"note": "the server session did not finish within the harness timeout"}, sig)
+            continue
         if o["error"] or o["loop_errors"]:
             ctx.violation("handler_exception", case, {"error": o["error"], "loop": o["loop_errors"]}, {**sig, "clause2": "internal"})
             continue
-        crashed = case["crash_at"] < len(WS_FAMILY if case["family"] == "ws" else FAMILIES[case["family"]])
-        if crashed and case["kind"] == "raise" and o["exceptions"] != 1:
-            ctx.violation("logged_once", case, {"exceptions": o["exceptions"]}, sig)
-        if not crashed and o["exceptions"] != 0:
-            ctx.violation("spurious_error_log", case, {"exceptions": o["exceptions"]}, sig)
+        app = o["crash_app"]
+        if app is None:
+            ctx.violation("application_not_started", case, v, sig)
+            continue
+        if app["exit"] is None:
+            # the scripted application is still waiting somewhere before its crash point: nothing can be judged
+            ctx.violation("crash_point_not_reached", case, {"sends": app["send"], "view": v}, sig)
+            continue
+        st = accepted_state(case, app["send"])
+        ctx.count("state_at_exit", str(st))
+        if st is None:
+            ctx.violation("valid_message_refused", case, {"sends": app["send"]}, sig)
+            continue
+        if case["kind"] == "invalid" and (not app["send"] or app["send"][-1][2] == "ok"):
+            # the corpus holds only messages hypercorn itself refuses; an accepted one means the corpus no longer
+            # exercises the failure mode it is there for (the application then simply returned early)
+            ctx.violation("invalid_message_accepted", case, {"sends": app["send"]}, sig)
+        # ---- the failure is logged (raise / invalid: exactly once; return / cancel: nothing is an error)
+        want_logs = 1 if case["kind"] in ("raise", "invalid") else 0
+        if want_logs == 1 and o["exceptions"] != 1:
+            ctx.violation("logged_once", case, {"exceptions": o["exceptions"], "exit": app["exit"]}, sig)
+        if want_logs == 0 and o["exceptions"] != 0:
+            ctx.violation("spurious_error_log", case, {"exceptions": o["exceptions"], "exit": app["exit"]}, sig)
         if case["proto"] == "ws":
-            # handshake phase: 500; connected: close frame 1011; never a normal close
-            accepted = case["crash_at"] >= 2
-            if crashed and not accepted and not v["status_line"].startswith("HTTP/1.1 500"):
+            # handshake phase: 500; connected: close frame 1011; never a normal close; always terminated
+            if st == "HANDSHAKE" and not v["status_line"].startswith("HTTP/1.1 500"):
                 ctx.violation("ws_crash_handshake_500", case, v, sig)
-            if crashed and accepted and ["CloseConnection", 1011] not in v["frames"]:
+            if st == "CONNECTED" and ["CloseConnection", 1011] not in v["frames"]:
                 ctx.violation("ws_crash_connected_1011", case, v, sig)
-            if crashed and not v["closed"]:
+            if not v["closed"]:
                 ctx.violation("not_terminated", case, v, sig)
             continue
-        st = asgi_state_at_exit(case)
+        full = "".join(s_[1].get("body", b"").decode() for s_ in FAMILIES[case["family"]] if s_[0] == "send" and s_[1]["type"] == "http.response.body")
         if case["proto"] == "1.1":
             r0 = v["responses"][0] if v["responses"] else None
             if st == "REQUEST":
@@ -178,9 +310,12 @@ def check(ctx: Ctx, cases: List[dict]) -> None:
                 if len(v["responses"]) > 1 and not fully_sent:
                     ctx.violation("served_after_abort", case, v, sig)
             else:
-                full = "".join(s_[1].get("body", b"").decode() for s_ in FAMILIES[case["family"]] if s_[0] == "send" and s_[1]["type"] == "http.response.body")
                 if r0 is None or not r0["complete"] or r0["body"] != full:
                     ctx.violation("completed_response_damaged", case, v, sig)
+                # the connection keeps working: the pipelined follower is answered in full
+                r1 = v["responses"][1] if len(v["responses"]) > 1 else None
+                if r1 is None or r1["status"] != 200 or not r1["complete"] or r1["body"] != "sibling":
+                    ctx.violation("follower_not_served", case, v, sig)
         else:
             c = v["crash"]
             sib = v["sibling"]
@@ -188,7 +323,8 @@ def check(ctx: Ctx, cases: List[dict]) -> None:
                 ctx.violation("connection_level_failure", case, {"error": v["error"], "goaway": v["goaway"]}, sig)
             if not (sib.get("headers") and sib.get("ended") and sib.get("data") == "sibling"):
                 ctx.violation("sibling_affected", case, sib, sig)
-            status = int(dict(c["headers"])[":status"]) if c.get("headers") else None
+            raw = dict(c["headers"]).get(":status") if c.get("headers") else None
+            status = int(raw) if isinstance(raw, str) and raw.isdigit() else None
             if st == "REQUEST":
                 if not (status == 500 and c.get("ended")):
                     ctx.violation("crash_before_start_500", case, c, sig)
@@ -198,34 +334,52 @@ def check(ctx: Ctx, cases: List[dict]) -> None:
                 elif c.get("reset") is None:
                     ctx.violation("h2_stream_not_reset", case, c, sig)
             else:
-                if not (status == 200 and c.get("ended")):
+                if not (status == 200 and c.get("ended") and c.get("data") == full):
                     ctx.violation("completed_response_damaged", case, c, sig)
+
+
+def stream_sessions() -> List[tuple]:
+    """stream-level sessions for the model/implementation correspondence of the exit step: every crash point of every
+    family, ended (a) at once and (b) by each message the stream refuses in the state reached, followed by the
+    completion signal `app_send(None)`"""
+    out = []
+    for fam, steps in FAMILIES.items():
+        for idx in range(len(steps) + 1):
+            msgs = [s_[1] for s_ in steps[:idx] if s_[0] == "send"]
+            st = scripted_state({"family": fam, "crash_at": idx})
+            ends: List[tuple] = [("exit", [])]
+            for name, bad in INVALID[st].items():
+                if name != "start_bad_status":      # `int("abc")`: the model's status is a number (end-to-end grid only)
+                    ends.append((name, [bad]))
+            for version in ("1.1", "2"):
+                for name, tail in ends:
+                    out.append((fam, idx, version, name, msgs + tail))
+    return out
 
 
 def run(ctx: Ctx) -> None:
     cases = grid()
     ctx.exhaustive = True
     check(ctx, cases)
-    # stream-level correspondence for the crash step itself (model = Http.appSend … none)
+    # stream-level correspondence for the exit step itself (model = Http.appSend … none), refused messages included: the
+    # state the stream is left in by a refused message decides between the 500 and the bare stream-closed
     reqs, metas = [], []
     import asyncio
-    for fam, steps in FAMILIES.items():
-        for idx in range(len(steps) + 1):
-            for version in ("1.1", "2"):
-                msgs = [s[1] for s in steps[:idx] if s[0] == "send"]
-                init = {"method": "POST", "version": version, "scheme": "http", "headers": [(b"host", b"x")]}
-                ops = [{"send": dict(m)} for m in msgs] + [{"send": None}]
-                obs = asyncio.run(S.drive_http(init, ops))
-                reqs.append(S.http_model_req(init, ops))
-                metas.append((fam, idx, version, obs))
+    for fam, idx, version, name, msgs in stream_sessions():
+        init = {"method": "POST", "version": version, "scheme": "http", "headers": [(b"host", b"x")]}
+        ops = [{"send": dict(m)} for m in msgs] + [{"send": None}]
+        obs = asyncio.run(S.drive_http(init, ops))
+        reqs.append(S.http_model_req(init, ops))
+        metas.append((fam, idx, version, name, obs))
+        ctx.count("stream_level_end", name)
     model = ctx.model(reqs)
     if model is not None:
-        for m, (fam, idx, version, obs) in zip(model, metas):
+        for m, (fam, idx, version, name, obs) in zip(model, metas):
             ctx.disagreements_checked += 1
             impl = [S.http_obs_for_compare(o, True) for o in obs]
             mo = m.get("ok")
             if mo is None or [{k: v for k, v in x.items() if k != "puts"} for x in mo] != impl:
-                ctx.disagree("stream.http(crash)", {"family": fam, "crash_at": idx, "version": version}, m, impl)
+                ctx.disagree("stream.http(crash)", {"family": fam, "crash_at": idx, "version": version, "end": name}, m, impl)
 
 
 def replay(ctx: Ctx, case: dict) -> None:
